@@ -104,22 +104,13 @@ Definition serve (t : list entry) (extra_fallbacks : list bytes) (host_header ur
 (* trimPathPrefix for paths that need no escaping *)
 Fixpoint trim_prefix (s p : bytes) : bytes :=
   if has_prefix s p then skipn (length p) s else s.
-(* trimPathPrefix hands the trimmed text back to url.Parse: a result that starts with "//" is read
-   as "//authority/path" (unless it starts with "///"), so the text up to the next "/" disappears
-   from the path *)
-Fixpoint drop_to_slash (s : bytes) : bytes :=
-  match s with [] => [] | c :: r => if c =? SLASH then s else drop_to_slash r end.
-Definition reparse (t : bytes) : bytes :=
-  match t with
-  | a :: b :: r => if (a =? SLASH) && (b =? SLASH) &&
-                      negb (match r with c :: _ => c =? SLASH | [] => false end)   (* not "///" *)
-                   then drop_to_slash r else t
-  | _ => t
-  end.
+(* trimPathPrefix hands the trimmed text back to url.ParseRequestURI (since /repo bf4cff5, the repair
+   of finding F-C02-5): what remains is a path even when it starts with "//". Before that repair
+   url.Parse read "//authority/path" and the text up to the next "/" disappeared from the path. *)
 Definition trimmed_path (url_path prefix : bytes) : bytes :=
   if beq prefix [SLASH] then url_path
   else let t := trim_prefix url_path prefix in
-       reparse (match t with c :: _ => if c =? SLASH then t else SLASH :: t | [] => [SLASH] end).
+       match t with c :: _ => if c =? SLASH then t else SLASH :: t | [] => [SLASH] end.
 
 (* ================= the real data structure: vhostTrie ================= *)
 (* type vhostTrie struct { fallbackHosts; edges map[string]*vhostTrie; site *SiteConfig; path string }
